@@ -139,6 +139,9 @@ type Knobs struct {
 	// GenesisRegUpper: registration 1 of each kind is owned by actor 3, whose address the document
 	// writes in the upper-case bech32 spelling (the models follow these two registrations)
 	GenesisRegUpper bool `json:"genesis_reg_upper,omitempty"`
+	// BadGenesisParams: "<module>:<rule>" - the genesis document carries parameters of that module
+	// which break that validity rule (every node must refuse to start from it)
+	BadGenesisParams string `json:"bad_genesis_params,omitempty"`
 	// RefMinGas: minimum-gas-prices of the reference node (the one whose CheckTx is judged)
 	RefMinGas string `json:"ref_min_gas,omitempty"`
 }
@@ -311,6 +314,16 @@ func BuildGenesis(k *Knobs, actors []*Actor) (json.RawMessage, []abci.ValidatorU
 
 	eg := enttypes.DefaultGenesisState()
 	eg.Params = enttypes.Params{EntSigners: k.signersString(actors), Denom: k.Ent.Denom, MinAccepts: k.Ent.MinAccepts, DecisionTimeLimit: k.Ent.Limit}
+	switch k.BadGenesisParams {
+	case "ent:denom":
+		eg.Params.Denom = ""
+	case "ent:min-accepts":
+		eg.Params.MinAccepts = uint64(len(k.Ent.Signers)) + 1
+	case "ent:signer":
+		eg.Params.EntSigners += ",und1notanaddress"
+	case "ent:no-signers":
+		eg.Params.EntSigners = ""
+	}
 	eg.StartingPurchaseOrderId = k.StartPO
 	if g := k.GenesisOrder; g != nil {
 		eg.StartingPurchaseOrderId = k.StartPO + 1
@@ -340,6 +353,14 @@ func BuildGenesis(k *Knobs, actors []*Actor) (json.RawMessage, []abci.ValidatorU
 
 	wg := wrkchaintypes.DefaultGenesisState()
 	wg.Params = wrkchaintypes.NewParams(k.Wrk.FeeReg, k.Wrk.FeeRec, k.Wrk.FeePur, k.Wrk.Denom, k.Wrk.DefLimit, k.Wrk.MaxLimit)
+	switch k.BadGenesisParams {
+	case "wrk:denom":
+		wg.Params.Denom = "1x"
+	case "wrk:fee":
+		wg.Params.FeeRecord = 0
+	case "wrk:limit":
+		wg.Params.DefaultStorageLimit = wg.Params.MaxStorageLimit + 1
+	}
 	wg.StartingWrkchainId = k.StartWrk
 	genOwner := func(i int) string {
 		if i == 1 && k.GenesisRegUpper {
@@ -390,10 +411,24 @@ func BuildGenesis(k *Knobs, actors []*Actor) (json.RawMessage, []abci.ValidatorU
 			Beacon:       beacontypes.Beacon{BeaconId: k.StartBeacon - 1, Moniker: "bigreg", Name: "many timestamps", LastTimestampId: n, FirstIdInState: 1, NumInState: n, RegTime: uint64(GenesisTS) - n - 1, Owner: BigRegOwner().String()},
 			InStateLimit: n + 1000, Timestamps: ts})
 	}
+	switch k.BadGenesisParams {
+	case "bcn:denom":
+		bg.Params.Denom = ""
+	case "bcn:fee":
+		bg.Params.FeeRegister = 0
+	case "bcn:limit":
+		bg.Params.MaxStorageLimit = 0
+	}
 	gs[beacontypes.ModuleName] = cdc.MustMarshalJSON(bg)
 
 	sg := streamtypes.DefaultGenesis()
 	sg.Params = streamtypes.NewParams(math.LegacyMustNewDecFromStr(k.ValFee))
+	switch k.BadGenesisParams {
+	case "str:above-one":
+		sg.Params.ValidatorFee = math.LegacyMustNewDecFromStr("1.000000000000000001")
+	case "str:negative":
+		sg.Params.ValidatorFee = math.LegacyMustNewDecFromStr("-0.01")
+	}
 	gs[streamtypes.ModuleName] = cdc.MustMarshalJSON(sg)
 
 	bz, err := json.Marshal(gs)
